@@ -25,10 +25,10 @@ WsTok == [k |-> "ws", s |-> <<32>>, v |-> <<>>, n |-> <<>>, d |-> <<>>, w |-> ""
 PunctTok(k, c) == [k |-> k, s |-> <<c>>, v |-> <<>>, n |-> <<>>, d |-> <<>>, w |-> "", a |-> <<>>]
 FuncTok(w, args) == [k |-> "func", s |-> <<>>, v |-> <<>>, n |-> <<>>, d |-> <<>>, w |-> w, a |-> args]
 
-Slot(fi, j) == LET F == Fams[fi] IN IF F.kind \in {"list", "sel", "clist"} THEN F.slots[1] ELSE F.slots[j]
+Slot(fi, j) == LET F == Fams[fi] IN IF F.kind \in {"list", "sel", "clist", "at"} THEN F.slots[1] ELSE F.slots[j]
 Entry(fi, s, j) == Slot(fi, j)[s[j]]
-MaxLen(fi) == LET F == Fams[fi] IN IF F.kind \in {"list", "sel", "clist"} THEN F.max ELSE Len(F.slots)
-Complete(fi, s) == LET F == Fams[fi] IN IF F.kind \in {"list", "sel", "clist"} THEN Len(s) >= F.min ELSE Len(s) = Len(F.slots)
+MaxLen(fi) == LET F == Fams[fi] IN IF F.kind \in {"list", "sel", "clist", "at"} THEN F.max ELSE Len(F.slots)
+Complete(fi, s) == LET F == Fams[fi] IN IF F.kind \in {"list", "sel", "clist", "at"} THEN Len(s) >= F.min ELSE Len(s) = Len(F.slots)
 
 (* the token list a state stands for *)
 JoinWs(tl) == Flatten([i \in 1..Len(tl) |-> IF i = 1 THEN tl[i] ELSE <<WsTok>> \o tl[i]])
@@ -41,7 +41,7 @@ Toks(fi, s) ==
   LET F == Fams[fi]
       E(j) == Entry(fi, s, j)
   IN
-  CASE F.kind = "list" -> JoinWs([j \in 1..Len(s) |-> E(j).toks])
+  CASE F.kind \in {"list", "at"} -> JoinWs([j \in 1..Len(s) |-> E(j).toks])
     [] F.kind = "sel" -> Flatten([j \in 1..Len(s) |-> E(j).toks])
     [] F.kind = "clist" -> Flatten([j \in 1..Len(s) |-> IF j = 1 THEN E(j).toks ELSE <<PunctTok("comma", 44)>> \o E(j).toks])
     [] F.kind = "func" ->
@@ -60,10 +60,20 @@ SelValid(fi, s) ==
   /\ Len(s) >= 1 /\ c[1] # "comb" /\ c[Len(s)] # "comb"
   /\ \A j \in 2..Len(s) : ~(c[j] = "comb" /\ c[j - 1] = "comb") /\ ~(c[j] = "type" /\ c[j - 1] # "comb")
 
+(* at-rule preludes (media / supports conditions): no connective or comma at either end, no two
+   of them in a row (a loose filter: the prelude grammar itself is not the subject here, the
+   relation compares the token streams) *)
+AtValid(fi, s) ==
+  LET con(j) == Entry(fi, s, j).lex \in {"and", "or", ","}
+      neg(j) == Entry(fi, s, j).lex \in {"not", "only"}
+  IN /\ Len(s) >= 1 /\ ~con(1) /\ ~con(Len(s)) /\ ~neg(Len(s))
+     /\ \A j \in 2..Len(s) : ~(con(j) /\ con(j - 1)) /\ ~(neg(j) /\ neg(j - 1)) /\ (con(j) \/ con(j - 1) \/ neg(j - 1))
+
 InDomain(fi, s) ==
   LET F == Fams[fi] IN
   IF ~Complete(fi, s) THEN FALSE
   ELSE IF F.kind = "sel" THEN SelValid(fi, s) /\ Len(SelCanon(Toks(fi, s), FALSE)) >= 0
+  ELSE IF F.kind = "at" THEN AtValid(fi, s) /\ ~HasOOD(PreludeCanon(F.pn, Toks(fi, s)))
   ELSE ~HasOOD(DeclMeaning(F.pn, Toks(fi, s)))
 
 Init == f \in 1..NF /\ seq = <<>> /\ ok = FALSE
@@ -148,7 +158,7 @@ DesignSwap == Fams[f].pn = "background-position" => Law(DSwap)
 DesignShadow == Fams[f].pn = "box-shadow" => Law(DShadow)
 DesignFlex == Fams[f].pn = "flex" => Law(DFlex)
 \* the relation is reflexive on everything that is enumerated (a pass-through is always accepted)
-Reflexive == Complete(f, seq) /\ Fams[f].kind # "sel" =>
+Reflexive == Complete(f, seq) /\ Fams[f].kind \notin {"sel", "at"} =>
                ItemVerdict([t |-> "decl", name |-> <<>>, pn |-> Fams[f].pn, imp |-> FALSE, pre |-> Toks(f, seq)],
                            [t |-> "decl", name |-> <<>>, pn |-> Fams[f].pn, imp |-> FALSE, pre |-> Toks(f, seq)]) = ""
 \* colour functions: every channel of a computed colour is an 8-bit value
